@@ -74,7 +74,7 @@ SyncLoop(D, st, from, es) ==
             mine == c = nd.h.me
             hd == nd.heads
             hd1 == IF c \in DOMAIN hd /\ hd[c] # NoEv /\ D[e].i > D[hd[c]].i
-                   THEN [ x \in (DOMAIN hd) \ {c} |-> hd[x] ] ELSE hd
+                   THEN Without(hd, c) ELSE hd
             nd1 == [ nd EXCEPT !.h = h1,
                                !.head = IF mine THEN e ELSE @,
                                !.seq = IF mine THEN D[e].i ELSE @,
